@@ -40,6 +40,7 @@ enum {
   CN_WITH_OPTIONS,
   CN_WITH_PAYLOAD,
   CN_SKIPPED,
+  CN_CASES,
   CN_REASON0 = 8 /* + enum rc_reason */
 };
 static uint64_t lcnt[32];
@@ -406,6 +407,8 @@ struct hv {
 
 enum { SK_BLIND, SK_MUT, SK_TABLE };
 struct corpus;
+struct space;
+typedef int (*inner_fn)(uint64_t idx, const struct space *sp);
 struct space {
   char name[80];
   int kind;
@@ -414,7 +417,9 @@ struct space {
   int alpha, minlen, maxlen;
   struct hv hv[64];
   int nhv;
-  uint64_t per_variant, total, chunk;
+  uint64_t per_variant, total; /* total = number of cases */
+  uint64_t batch, nbatches, chunk; /* cases per vxp index, number of vxp indices, vxp indices per work unit */
+  inner_fn inner;
   struct corpus *corp;
 };
 
@@ -441,9 +446,8 @@ build_blind(const struct space *sp, const struct hv *h, const uint8_t *tail, siz
   return n + tl;
 }
 
-static void
-blind_case(uint64_t idx, void *arg) {
-  const struct space *sp = arg;
+static int
+blind_case(uint64_t idx, const struct space *sp) {
   uint64_t v = idx / sp->per_variant, r = idx % sp->per_variant;
   int L = sp->minlen;
   uint64_t n = 1;
@@ -461,14 +465,13 @@ blind_case(uint64_t idx, void *arg) {
     tail[i] = sp->alpha == 256 ? (uint8_t)d : A20[d];
   }
   size_t len = build_blind(sp, &sp->hv[v], tail, (size_t)L, msg);
-  check_case(sp->f, msg, len);
+  int failed = check_case(sp->f, msg, len);
   if (idx % 15485863 == 0) {
     char hx[64];
     vx_hex(hx, sizeof hx, msg, len);
-    vxp_sample("idx=%llu bytes=%s -> reference: %s", (unsigned long long)idx, hx, rc_reason_name(g_rm.reason));
+    vxp_sample("case=%llu bytes=%s -> reference: %s", (unsigned long long)idx, hx, rc_reason_name(g_rm.reason));
   }
-  if ((idx + 1) % sp->chunk == 0 || idx + 1 == sp->total)
-    cnt_flush();
+  return failed;
 }
 
 static void
@@ -493,9 +496,7 @@ space_blind_done(struct space *sp) {
   }
   sp->per_variant = per;
   sp->total = per * (uint64_t)sp->nhv;
-  sp->chunk = 65536;
-  while (sp->chunk > 256 && sp->total / sp->chunk < 512)
-    sp->chunk /= 2;
+  sp->batch = 256;
 }
 static void
 hv_product(struct space *sp, const uint8_t *modes, int nmodes) {
@@ -757,10 +758,10 @@ tcp_reframe(const uint8_t *m, size_t len, size_t code_off, uint8_t *out) {
   return hn + rl;
 }
 
-static void
-mut_case(uint64_t idx, void *arg) {
-  const struct space *sp = arg;
+static int
+mut_case(uint64_t idx, const struct space *sp) {
   const struct corpus *C = sp->corp;
+  int failed = 0;
   /* message: last one with first <= idx */
   int lo = 0, hi = C->n - 1;
   while (lo < hi) {
@@ -820,8 +821,8 @@ mut_case(uint64_t idx, void *arg) {
   if (skipped)
     cnt(CN_SKIPPED);
   else
-    check_case(c->f, out, n);
-  if (vx_in_replay()) {
+    failed = check_case(c->f, out, n);
+  if (vx_in_replay() && (failed || g_replay_verbose)) {
     static const char *kn[] = {"high nibble", "low nibble", "byte", "insert 0xFF", "delete marker", "truncate to"};
     char hx[2100];
     vx_hex(hx, sizeof hx, c->bytes, c->len > 1000 ? 1000 : c->len);
@@ -832,11 +833,10 @@ mut_case(uint64_t idx, void *arg) {
   if (idx % 1000003 == 0 && !skipped) {
     char hx[100];
     hexs(hx, sizeof hx, out, n);
-    vxp_sample("idx=%llu corpus#%d kind=%d pos=%u val=%llu bytes=%s -> reference: %s", (unsigned long long)idx, lo,
+    vxp_sample("case=%llu corpus#%d kind=%d pos=%u val=%llu bytes=%s -> reference: %s", (unsigned long long)idx, lo,
                g->kind, g->pos, (unsigned long long)r, hx, rc_reason_name(g_rm.reason));
   }
-  if ((idx + 1) % sp->chunk == 0 || idx + 1 == sp->total)
-    cnt_flush();
+  return failed;
 }
 
 /* ------------------------------------------------------------------------------------------ */
@@ -883,9 +883,10 @@ table_build(void) {
         tc_add(codes[c], num, ls[i]);
     }
 }
-static void
-table_case(uint64_t idx, void *arg) {
-  const struct space *sp = arg;
+static int
+table_case(uint64_t idx, const struct space *sp) {
+  int failed = 0;
+  (void)sp;
   const struct tcase *t = &g_tc[idx / TABLE_VARIANTS];
   unsigned v = (unsigned)(idx % TABLE_VARIANTS);
   enum rc_framing f = (enum rc_framing)(v % 3);
@@ -898,16 +899,36 @@ table_case(uint64_t idx, void *arg) {
   struct rc_emsg e = {f, 1, t->code, 0x4321, &tok, with_tok ? 1 : 0, &o, 1, (const uint8_t *)"p", with_pay ? 1 : 0};
   size_t n = rc_encode(&e, enc, t->len + 32);
   if (n && !((t->code >> 5) == 7 && f == RC_UDP))
-    check_case(f, enc, n);
+    failed = check_case(f, enc, n);
   else
     cnt(CN_SKIPPED);
   if (idx % 997 == 0 && n)
-    vxp_sample("idx=%llu %s code=%u.%02u option %u length %zu -> reference: %s", (unsigned long long)idx,
+    vxp_sample("case=%llu %s code=%u.%02u option %u length %zu -> reference: %s", (unsigned long long)idx,
                rc_framing_name(f), t->code >> 5, t->code & 31, t->number, t->len, rc_reason_name(g_rm.reason));
   free(val);
   free(enc);
-  if ((idx + 1) % sp->chunk == 0 || idx + 1 == sp->total)
+  return failed;
+}
+
+/* ------------------------------------------------------------------------------------------ */
+/* One vxp index = a batch of consecutive cases (the per-index bookkeeping of the enumerator is shared
+ * memory traffic; amortising it over a batch is what lets 16 workers scale).  index -> cases is still a
+ * pure function: batch b = cases [b*batch, (b+1)*batch). */
+static void
+batch_fn(uint64_t b, void *arg) {
+  const struct space *sp = arg;
+  uint64_t lo = b * sp->batch, hi = lo + sp->batch;
+  int nf = 0;
+  if (hi > sp->total)
+    hi = sp->total;
+  for (uint64_t i = lo; i < hi; i++)
+    nf += sp->inner(i, sp);
+  lcnt[CN_CASES] += hi - lo;
+  if ((b + 1) % sp->chunk == 0 || b + 1 == sp->nbatches)
     cnt_flush();
+  if (vx_in_replay())
+    printf("batch %llu of space %s = cases %llu..%llu: %d failing\n", (unsigned long long)b, sp->name,
+           (unsigned long long)lo, (unsigned long long)hi - 1, nf);
 }
 
 /* ------------------------------------------------------------------------------------------ */
@@ -1016,13 +1037,12 @@ main(int argc, char **argv) {
   unsigned me = IS_ASAN ? (vx_is_thorough() ? M_AT : M_AQ) : (vx_is_thorough() ? M_FT : M_FQ);
   struct corpus *cq = NULL, *ct = NULL;
   int table_built = 0;
-  uint64_t done_total = 0;
 
   for (int i = 0; i < nspaces; i++) {
     struct space *sp = &spaces[i];
     if (!replay && !(sp->mask & me))
       continue;
-    vxp_case_fn fn = blind_case;
+    sp->inner = blind_case;
     if (sp->kind == SK_MUT) {
       int th = !strcmp(sp->name, "mut-corpus-t");
       if (replay) {
@@ -1044,36 +1064,50 @@ main(int argc, char **argv) {
         *cp = corpus_build(th);
       sp->corp = *cp;
       sp->total = (*cp)->total;
-      sp->chunk = 4096;
-      fn = mut_case;
+      sp->batch = 64;
+      sp->inner = mut_case;
     } else if (sp->kind == SK_TABLE) {
       if (!table_built) {
         table_build();
         table_built = 1;
       }
       sp->total = g_ntc * TABLE_VARIANTS;
-      sp->chunk = 64;
-      fn = table_case;
+      sp->batch = TABLE_VARIANTS;
+      sp->inner = table_case;
     }
-    if (vxp_replay_if_match(sp->name, fn, sp))
+    sp->nbatches = (sp->total + sp->batch - 1) / sp->batch;
+    /* work unit: ~1/512 of the space, at most 256 batches */
+    sp->chunk = sp->nbatches / 512 + 1;
+    if (sp->chunk > 256)
+      sp->chunk = 256;
+    if (vxp_replay_if_match(sp->name, batch_fn, sp))
       return 0;
     if (replay)
       continue;
-    struct vxp_config c = {.space = sp->name, .total = sp->total, .budget_s = 0, .chunk = sp->chunk};
+    struct vxp_config c = {.space = sp->name, .total = sp->nbatches, .budget_s = 0, .chunk = sp->chunk};
     struct vxp_stats xs;
-    vxp_enumerate(&c, fn, sp, &xs);
-    done_total += xs.done;
-    if (sp->kind == SK_MUT) {
-      char k[100];
-      snprintf(k, sizeof k, "%s.messages", sp->name);
-      vx_ev_int(k, sp->corp->n);
+    uint64_t before = vxp_counter(CN_CASES);
+    vxp_enumerate(&c, batch_fn, sp, &xs);
+    {
+      char k[120];
+      char v[120];
+      snprintf(k, sizeof k, "%s.cases", sp->name);
+      snprintf(v, sizeof v, "%llu of %llu (batches of %llu per index)", (unsigned long long)(vxp_counter(CN_CASES) - before),
+               (unsigned long long)sp->total, (unsigned long long)sp->batch);
+      vx_ev_str(k, v);
+      if (sp->kind == SK_MUT) {
+        snprintf(k, sizeof k, "%s.messages", sp->name);
+        vx_ev_int(k, sp->corp->n);
+      }
     }
   }
   if (replay)
     return 3; /* artefact belongs to another stage */
 
-  vx_ev_add_states((long long)done_total, (long long)done_total, (long long)done_total);
-  vx_ev_add_evals((long long)done_total, (long long)vxp_distinct_count());
+
+  long long done_total = (long long)vxp_counter(CN_CASES);
+  vx_ev_add_states(done_total, done_total, done_total);
+  vx_ev_add_evals(done_total, (long long)vxp_distinct_count());
   vx_ev_rule("every case = one byte string handed to libcoap's decoder (exact-size heap copy, pdu sized by the input) "
              "and to the reference decoder; blind spaces: header variant (TKL 0/1/8/9/13/14/15 x code 0.00/0.01/2.05, "
              "for TCP x length-prefix mode, for WS x Len nibble) x every tail over the alphabet; mutation space: every "
